@@ -8,6 +8,7 @@ import (
 	"io"
 	"net"
 	"net/http"
+	"os"
 	"strconv"
 	"strings"
 	"sync"
@@ -187,21 +188,29 @@ func (b *Backend) reserve() {
 // Up listens again on the same address. If the port has been lost to another process after all, the running
 // case is flagged as disturbed (it is re-executed by the framework) instead of crashing the child.
 func (b *Backend) Up() {
-	if b.reservedFD > 0 {
-		syscall.Close(b.reservedFD)
-		b.reservedFD = 0
-	}
 	var ln net.Listener
 	var err error
-	for i := 0; i < 300; i++ {
+	if b.reservedFD > 0 {
+		// listen on the very socket that kept the port while the backend was down: no moment in which another
+		// process could take the port
+		if syscall.Listen(b.reservedFD, 512) == nil {
+			f := os.NewFile(uintptr(b.reservedFD), "reserved-port")
+			ln, err = net.FileListener(f) // duplicates the descriptor
+			f.Close()
+		} else {
+			syscall.Close(b.reservedFD)
+		}
+		b.reservedFD = 0
+	}
+	for i := 0; i < 300 && ln == nil; i++ {
 		ln, err = net.Listen("tcp", b.Addr)
 		if err == nil {
 			break
 		}
 		RealSleep(int64(time.Millisecond))
 	}
-	if err != nil {
-		FlagAnomaly("scripted backend could not listen on its port again: " + err.Error())
+	if ln == nil {
+		FlagAnomaly(fmt.Sprintf("scripted backend could not listen on its port again: %v", err))
 		b.lost = true
 		return
 	}
@@ -258,6 +267,9 @@ func (b *Backend) Reset() {
 	b.probeLog = nil
 	b.mu.Unlock()
 }
+
+// Lost reports that the backend could not get its port back after Down (the case that saw it has been flagged).
+func (b *Backend) Lost() bool { return b.lost }
 
 // Inflight returns the number of requests currently inside the handler.
 func (b *Backend) Inflight() int {
